@@ -892,7 +892,7 @@ fn parse_struct_literal_fields(
 
         let expr = parse_expression(tokens, id_gen, diagnostics);
 
-        if tokens.idx == start_idx {
+        if tokens.idx <= start_idx {
             // We haven't made forward progress, the syntax must be
             // very broken. Give up on this struct, consuming until
             // the closing brace.
@@ -1546,6 +1546,7 @@ fn parse_enum_body(
             break;
         }
 
+        let start_idx = tokens.idx;
         let mut variant = parse_variant(tokens, id_gen, diagnostics);
 
         if let Some(token) = tokens.peek() {
@@ -1553,6 +1554,13 @@ fn parse_enum_body(
                 variant.comma = Some(token.position);
                 variants.push(variant);
                 tokens.pop();
+
+                if tokens.idx <= start_idx {
+                    // We haven't made forward progress, e.g. the
+                    // file ends after a comma. That has been
+                    // reported, so give up.
+                    break;
+                }
             } else if token.text == "}" {
                 variants.push(variant);
                 break;
@@ -1850,6 +1858,7 @@ fn parse_type_arguments(
                 break token.position;
             }
         }
+        let start_idx = tokens.idx;
         let arg = parse_type_hint(tokens, id_gen, diagnostics);
         let arg_pos = arg.position.clone();
         args.push(arg);
@@ -1857,6 +1866,13 @@ fn parse_type_arguments(
         if let Some(token) = tokens.peek() {
             if token.text == "," {
                 tokens.pop();
+
+                if tokens.idx <= start_idx {
+                    // We haven't made forward progress, e.g. the
+                    // file ends after a comma. That has been
+                    // reported, so give up on these arguments.
+                    break arg_pos;
+                }
             } else if token.text == ">" {
                 break token.position;
             } else {
@@ -1913,6 +1929,7 @@ fn parse_type_params(
             break;
         }
 
+        let start_idx = tokens.idx;
         let arg = parse_type_symbol(tokens, id_gen, diagnostics);
         let arg_pos = arg.position.clone();
         params.push(arg);
@@ -1920,6 +1937,13 @@ fn parse_type_params(
         if let Some(token) = tokens.peek() {
             if token.text == "," {
                 tokens.pop();
+
+                if tokens.idx <= start_idx {
+                    // We haven't made forward progress, e.g. the
+                    // file ends after a comma. That has been
+                    // reported, so give up.
+                    break;
+                }
             } else if token.text == ">" {
                 break;
             } else {
@@ -2010,6 +2034,12 @@ fn parse_tuple_type_hint(
             tokens.pop();
         }
 
+        if tokens.idx <= start_idx {
+            // We haven't made forward progress, e.g. the file ends
+            // after a comma. That has been reported, so give up.
+            break;
+        }
+
         assert!(
             tokens.idx > start_idx,
             "The parser should always make forward progress."
@@ -2041,8 +2071,16 @@ fn parse_type_hint(
         return parse_tuple_type_hint(tokens, id_gen, diagnostics);
     }
 
+    let start_idx = tokens.idx;
     let sym = parse_type_symbol(tokens, id_gen, diagnostics);
-    let (args, close_pos) = parse_type_arguments(tokens, id_gen, diagnostics);
+    let (args, close_pos) = if tokens.idx > start_idx {
+        parse_type_arguments(tokens, id_gen, diagnostics)
+    } else {
+        // There's no type name here (already reported), so don't
+        // look for type arguments. At the end of the file we'd
+        // otherwise see the previous `<` again and never stop.
+        (vec![], None)
+    };
 
     let position = match close_pos {
         Some(close_pos) => Position::merge(&sym.position, &close_pos),
@@ -2195,6 +2233,12 @@ fn parse_parameters(
                     msgtext!(" here, but reached the end of the file."),
                 ]),
             });
+            break;
+        }
+
+        if tokens.idx <= start_idx {
+            // We haven't made forward progress, e.g. the file ends
+            // after a comma. That has been reported, so give up.
             break;
         }
 
@@ -2825,6 +2869,12 @@ fn parse_let_destination(
 
             if !peeked_symbol_is(tokens, ")") {
                 require_token(tokens, diagnostics, ",");
+            }
+
+            if tokens.idx <= start_idx {
+                // We haven't made forward progress, e.g. the file ends
+                // after a comma. That has been reported, so give up.
+                break;
             }
 
             assert!(
